@@ -4,6 +4,7 @@
 cd /verif/seeded || exit 2
 for d in */; do
   id="${d%/}"
+  [ -f "$id/meta.json" ] || continue
   prop=$(python3 -c "import json;print(json.load(open('$id/meta.json'))['breaks'].split()[0])")
   /verif/tools/seeded_run.sh "$id" "$prop" >/dev/null 2>&1
   res=$(head -1 "$id/detection.txt")
